@@ -96,6 +96,10 @@ pub enum ImageSrc {
     /// materialised by the independent builder; `backing` = next layer
     #[serde(rename = "build")]
     Build { desc: ImageDesc },
+    /// bytes of an existing file (C20: output of `rqcow2 format`); judged like
+    /// a library-formatted image
+    #[serde(rename = "file")]
+    File { path: String, cb: u32, ro: u32, vsize: u64 },
 }
 
 #[derive(Clone, Debug, Serialize, Deserialize)]
@@ -305,6 +309,19 @@ pub fn img_bytes(src: &ImageSrc, bs: usize, backing: Option<String>) -> (Vec<u8>
                     ro: *ro,
                     bsb: bs.trailing_zeros(),
                     vsize: size,
+                },
+            )
+        }
+        ImageSrc::File { path, cb, ro, vsize } => {
+            let buf = std::fs::read(path).unwrap_or_default();
+            (
+                buf,
+                None,
+                Geom {
+                    cb: *cb,
+                    ro: *ro,
+                    bsb: bs.trailing_zeros(),
+                    vsize: *vsize,
                 },
             )
         }
@@ -552,10 +569,11 @@ impl Runner {
                 "rbn": geom.rbn(), "epb": geom.bs()/8, "rpb": (geom.bs()*8) >> geom.ro,
                 "bsz": geom.bs(), "vszb": geom.vsize >> 9});
             s.push(json!({"e":"Reset","name": sc.name, "g": gj, "devs": devs, "init": toks, "btok": btok, "maxb": 0,
-                "src": match &sc.images[0] { ImageSrc::Format{..} => "format", _ => "build" },
+                "src": match &sc.images[0] { ImageSrc::Format{..} | ImageSrc::File{..} => "format", _ => "build" },
                 "bound": sc.bound_clusters * geom.bpc(),
                 "mal": sc.mutations.iter().map(|m| json!([m.0, m.1])).collect::<Vec<_>>(),
                 "lenient": if sc.mutations.is_empty() {0} else {1},
+                "leaks": match &sc.images[0] { ImageSrc::Build { desc } => desc.leaks, _ => 0 },
                 "refuse": if sc.must_refuse {1} else {0},
                 "fmtfail": FORMAT_FAIL.with(|f| f.borrow_mut().take()).unwrap_or_default(),
                 "par": if sc.steps.iter().any(|o| matches!(o, Op::Par{..})) {1} else {0},
